@@ -313,6 +313,9 @@ var epOps = []epOp{
 
 var epSock mangos.Socket
 
+// TwoThreadsEndpoints is also run under C12 (no call leaves anything locked).
+func TwoThreadsEndpoints() { twoThreadsEndpoints() }
+
 func twoThreadsEndpoints() {
 	scheme := []string{"vt", "tcp"}[kit.ChooseFree(2)]
 	a := kit.ChooseFree(len(epOps))
